@@ -169,8 +169,12 @@ def canon(e):
     if k == 'member':
         b = canon(e['base'])
         if e['arrow']:
-            if b.startswith('&') :
-                return '(%s)->%s' % (b, e['field'])
+            if b.startswith('&'):
+                # (&X)->f is X.f
+                inner = b[1:]
+                if inner.startswith('*'):
+                    return '(%s).%s' % (inner, e['field'])
+                return '%s.%s' % (inner, e['field'])
             return '%s->%s' % (b, e['field'])
         if b.startswith('*'):
             return '(%s).%s' % (b, e['field'])
